@@ -1,9 +1,15 @@
 HOOK_COMMITS = []
 ENGINES = [
-    {"name": "kernel", "path": "mc/kernel.py", "serves_properties": ["C01", "C05", "C15", "C16"], "kind_free_text": "hand-written bounded exhaustive explorer: units enumerate a finite space (alphabet x bound), sharded over a fork pool; recorder counts evaluations/distinct cases/states/transitions/witnesses; replay files; known-findings triage"},
+    {"name": "kernel", "path": "mc/kernel.py", "serves_properties": ["C01", "C03", "C05", "C15", "C16"], "kind_free_text": "hand-written bounded exhaustive explorer: units enumerate a finite space (alphabet x bound), sharded over a fork pool; recorder counts evaluations/distinct cases/states/transitions/witnesses; replay files; known-findings triage"},
 ]
 NOT_YET = {}
 CHECKS = {
+    "C03": {
+        "level": "exploration",
+        "technique": "exhaustive enumeration of font x dump-option lattice (deviation-bounded configurations) with byte-level round-trip oracle; exhaustive opcode/operand enumeration for instruction assembly",
+        "text": "Every corpus and generated font is dumped with every configuration within the deviation bound (k<=1 quick, k<=2 thorough, full product on generated fonts) over splitTables, splitGlyphs, disassembleInstructions, bitmap format, newline convention and writeVersion, and with every single-table tables=/skipTables= selection; the dump is imported and must save to the same table bytes as the source object model. TrueType programs: every opcode and push form through bytecode <-> assembly <-> XML.",
+        "note": "Free-text tables are compared on whitespace-collapsed canonical dumps when bytes differ (allowed by the property). Bitmap formats row/bitwise are only applied to EBDT (documented domain of ttx -z). Partial dumps are merged into the fully decoded source font (ttx -m semantics).",
+    },
     "C16": {
         "level": "model_checking",
         "technique": "exhaustive exploration of operation histories (touch/save/saveXML/compile/edit sequences up to a depth bound) on the real TTFont against a clean-path reference, plus exhaustive pipeline x PYTHONHASHSEED x simulated-clock product in separate processes",
